@@ -49,5 +49,3 @@ func makeSFO(fields map[string]string, order []string) []byte {
 	out = append(out, data...)
 	return out
 }
-
-func c05Library(e *Env) {}
